@@ -10,7 +10,7 @@ PROOF_FILES = ["C06Parse", "C06Lists", "C06Classes", "C06Color", "C06Entries", "
 THEOREM = ("Ufo2ft.C06.C06_offset / C06_candidate / C06_sound / C06_ligature / C06_complete / C06_holds / C06_error / "
            "groups_no_shared_mark / colorGraph_is_proper / firstAvailable_smallest / C06_parse_shape / C06_parse_mark / "
            "C06_parse_lig / C06_parse_null / C06_candidate_order_partial / C06_offset_general / C06_ctx_offset / C06_ctx_holds / "
-           "C06_frame / C06_plain_lookups_have_no_contextual_anchor / C06_ctx_split / C06_ctx_error / C06_modelX_error / C06_objectLibs_old_counterexample")
+           "C06_frame / C06_plain_lookups_have_no_contextual_anchor / C06_ctx_split / C06_ctx_error / C06_modelX_error / C06_objectLibs_old_counterexample / C06_ctx_skip / C06_ctx_keyError_old_counterexample")
 N = {"quick": 400, "thorough": 12000}
 RULE = ("random 'anchor fonts': 2-10 glyphs in the roles base / ligature / mark / Indic-Khmer base+mark / odd, each with a random "
         "set of named anchors (plain, '_'-prefixed, numbered 'x_N' incl. gaps, key-less '_N', 'top.alt'-style, keys ending in a digit, "
@@ -721,6 +721,21 @@ def _unlexable_mkmk(case):
     return False
 
 
+def _ctx_key_error(case, msg):
+    """`KeyError: 'k'` where some glyph carries a contextual anchor '*k[_N][.suffix]' with GPOS_Context data"""
+    m = re.fullmatch(r"'([^']*)'", msg.strip())
+    if not m:
+        return False
+    for g in case["glyphs"]:
+        for a in g["anchors"]:
+            n = a[0] or ""
+            if n.startswith("*") and isinstance(_spec(a), dict):
+                stem = n[1:].split(".")[0]
+                if re.sub(r"_\d+$", "", stem) == m.group(1):
+                    return True
+    return False
+
+
 def classify_failure(res):
     """the two accepted shapes, both on fonts the model says are not `wf` (a '_' anchor name with a character outside
     [A-Za-z0-9._]): (1) two different mark anchor names whose generated mark class names coincide (ast.makeFeaClassName
@@ -731,7 +746,9 @@ def classify_failure(res):
     # "fixed" in known_findings.json - a recurrence of `KeyError: 'public.objectLibs'` is reported as a VIOLATION)
     if r["obs"].get("err") == "KeyError" and "public.objectLibs" in r["obs"].get("errMsg", ""):
         return {"finding": "anchor-identifier-without-objectLibs"}
-    if res["model"].get("errDetail") == "KeyError:markClass" and r["obs"].get("err") == "KeyError":
+    # (REPAIRED as well, named from the observation alone: KeyError with a bare anchor key out of the compile, and the font has
+    # a contextual anchor with lib data of that key)
+    if r["obs"].get("err") == "KeyError" and _ctx_key_error(r["case"], r["obs"].get("errMsg", "")):
         return {"finding": "contextual-anchor-without-mark-class"}
     if res["model"].get("err") is not None or res["model"].get("wf0", res["model"].get("wf")) is not False:
         return None
